@@ -15,7 +15,7 @@ RULE = ("A generated program P (C02 generator; label references of the forms lab
         "0..65535 and on the same side of $100), rename (bijection of all labels and EQU names onto fresh names of "
         "1-10 characters, upper / lower / mixed case, never a register name or mnemonic), layout (blanks / tabs between "
         "fields, trailing blanks, comments added / changed / removed with arbitrary printable text, mnemonic in upper / "
-        "lower / mixed case), suffix (1-10 further statements with new labels appended). Oracle: P and T(P) are both "
+        "lower / mixed case), suffix (1-10 further statements with new labels appended, and up to four statements that refer to labels already there at every operand width; enumerated: a variable below $100 referred to in ten forms by the program x ten forms by the appended statement). Oracle: P and T(P) are both "
         "accepted or both rejected; shift - lock-step decode: same operations, modes and lengths, absolute label "
         "operands differ by exactly D, every other byte equal, listing addresses and label symbols shifted by D, EQU "
         "symbols equal; rename / layout - image, listing addresses and symbol values identical under the name map; "
@@ -41,12 +41,40 @@ _layout = st.fixed_dictionaries(dict(
     ws1=st.sampled_from([" ", "  ", "\t", " \t ", "        "]), ws2=st.sampled_from([" ", "  ", "\t", "\t\t", "   "]),
     ws3=st.sampled_from([" ", "", "\t", "   "]), cmt=st.one_of(st.sampled_from(_COMMENTS), st.text(alphabet=" !#$%&'()*+,-./0123456789:;<=>?@ABCXYZ[]^_abcxyz{|}~", max_size=20)),
     case=st.integers(0, 2), trail=st.sampled_from(["", "", " ", "   ", "\t"])))
+# appended statements that refer to a label of the program already there, in every operand width; the last three only
+# when the whole program lies below $100 (the value fits 8 bits)
+_REF_FORMS = [lambda r: {"lab": "", "k": "imm16", "mn": "LDX", "val": r},
+              lambda r: {"lab": "", "k": "mem", "mn": "LDA", "val": r, "force": ""},
+              lambda r: {"lab": "", "k": "mem", "mn": "STB", "val": r, "force": ">"},
+              lambda r: {"lab": "", "k": "mem", "mn": "JMP", "val": r, "force": ""},
+              lambda r: {"lab": "", "k": "fdb", "vals": [r]},
+              lambda r: {"lab": "", "k": "idx", "mn": "LDA", "reg": "X", "ind": False, "val": r},
+              lambda r: {"lab": "", "k": "extind", "mn": "LDA", "val": r},
+              lambda r: {"lab": "", "k": "mem", "mn": "LDA", "val": r, "force": "<"},
+              lambda r: {"lab": "", "k": "imm8", "mn": "LDB", "val": r},
+              lambda r: {"lab": "", "k": "fcb", "vals": [r]}]
+_N_WIDE_FORMS = 7
+
+
+def _ref_tail(prog, refs, page_zero):
+    labs = [x["lab"] for x in prog["stmts"] if x.get("lab") and x["k"] != "equ"]
+    out = []
+    for form, li in refs or []:
+        if not labs:
+            break
+        if form >= _N_WIDE_FORMS and not page_zero:
+            form %= _N_WIDE_FORMS
+        out.append(_REF_FORMS[form]({"sym": labs[li % len(labs)], "op": "", "c": 0}))
+    return out
+
+
 _T = st.one_of(
     st.fixed_dictionaries(dict(kind=st.just("shift"), d=st.one_of(st.sampled_from([1, -1, 2, 16, 255, 256, -256, 0x100, 0x1000, -0x1000, 0x3FFF, "top", "top"]),
                                                                 st.integers(-0x4000, 0x4000)))),
     st.fixed_dictionaries(dict(kind=st.just("rename"), names=st.lists(_fresh_name, min_size=40, max_size=40, unique_by=lambda s: s.upper()))),
     st.fixed_dictionaries(dict(kind=st.just("layout"), layouts=st.lists(_layout, min_size=1, max_size=12))),
-    st.fixed_dictionaries(dict(kind=st.just("suffix"), extra=proggen.small_program)))
+    st.fixed_dictionaries(dict(kind=st.just("suffix"), extra=proggen.small_program,
+                               refs=st.lists(st.tuples(st.integers(0, len(_REF_FORMS) - 1), st.integers(0, 40)), max_size=4))))
 _case = st.fixed_dictionaries(dict(prog=st.one_of(proggen.rich_program, proggen.rich_program, proggen.program), T=_T,
                                    cli=st.integers(0, 5)))
 
@@ -82,6 +110,19 @@ def enumerated(tier, seed):
                     names = ["QA", "QB", "QC", "QD", "QE", "QF"]
                     perm = [names[i] for i in order] + names[4:]
                     yield dict(prog={"org": 0x1000, "stmts": stmts}, T=dict(kind="rename", names=perm))
+    yield from page_zero_pairs()
+
+
+def page_zero_pairs():
+    """a variable below $100 referred to once in the program and once more, at another width, by an appended statement"""
+    ref = {"sym": "VAR", "op": "", "c": 0}
+    var = {"lab": "VAR", "k": "fcb", "vals": [{"lit": 7, "sp": "dec"}]}
+    for i, first in enumerate(_REF_FORMS):
+        for j, second in enumerate(_REF_FORMS):
+            for var_first in (True, False):
+                body = [dict(first(ref), lab="START"), {"lab": "", "k": "inh", "mn": "RTS"}]
+                stmts = [{"lab": "", "k": "org", "addr": 0x0020}] + ([var] + body if var_first else body + [var])
+                yield dict(prog={"org": 0x0020, "stmts": stmts}, T=dict(kind="suffix", extra={"org": None, "stmts": []}, refs=[(j, 0)]))
 
 
 def searches(tier):
@@ -184,6 +225,8 @@ def transform(case):
                     tail.append({"lab": s["lab"], "k": "inh", "mn": "NOP"})   # keep labels other statements refer to
                 continue
             tail.append(s)
+        total = sum(proggen.size_bounds(s)[1] for s in prog["stmts"] + tail)
+        tail = tail + _ref_tail(prog, T.get("refs"), (prog["org"] or 0) + total + 16 < 0x100)
         if not tail:
             return None
         total = sum(proggen.size_bounds(s)[1] for s in prog["stmts"] + tail)
